@@ -250,6 +250,14 @@ func leadScripts() []script {
 	mk("lead-declared-other-late", 3, honest(1), honest(2), declaredOther(0, "X1"))
 	// a replayed old share of an honest member takes that member's slot
 	mk("lead-slot-taken", 3, declaredOther(1, "X2"), honest(1), honest(2), honest(0))
+	// lead 2 (life cycle): accepted from a chain notification, an over-long signer id stored under the
+	// pre-change key; the first honest share is stored next to it and replayed by round1.Start.
+	// Map iteration order decides: repeated.
+	for i := 0; i < 24; i++ {
+		out = append(out, script{name: fmt.Sprintf("lead-start-panic-%d", i), lines: []string{
+			header(3, allMembers(3), "64", false) + fmt.Sprintf(" life=1 try=%d", i),
+			"cast wait", "m signer=0 filed=K idenc=over", "notify accept", "m signer=1", "m signer=2", "m signer=1"}})
+	}
 	_ = strings.Join
 	return out
 }
